@@ -1,9 +1,23 @@
 """C09 — coefficient-domain ring operations match Z[X]/(X^N+1)."""
 PROPS_VO = "Props/C09.vo"
+EXTRA_VO = ["Props/C09Big.vo"]      # big-accumulator family (Model/C09Big.v, Proofs/C09Big.v)
 PROFILES = ["release"]
 RULE = ("harness c09: 22 vec_znx ring operations through Module<BE> on four backends, flat buffers with 1..3 columns, "
         "capacity > active size, N=1..16 (to 512 in thorough), every k in [-4N,4N] plus random i64, odd g, ring ratios 1..8; "
-        "whole result buffer compared with the model; oracle = spec-level image (Poly.v) written into the selected column")
+        "whole result buffer compared with the model; oracle = spec-level image (Poly.v) written into the selected column. "
+        "Big-accumulator family (harness/src/c09_big.rs, opcodes 9101..9116 = the 16 vec_znx_big_* ring operations: from_small, "
+        "add_into, add_assign, add_small_into, add_small_assign, sub, sub_assign, sub_negate_assign, sub_small_a, "
+        "sub_small_assign, sub_small_b, sub_small_negate_assign, negate, negate_assign, automorphism, automorphism_assign): "
+        "destination a VecZnxBig whose raw words (i64 on FFT64Ref/Avx, i128 on NTT120Ref/Avx) are written/read as bytes; "
+        "systematic part = every opcode x every size tuple (res, a, b) in 1..5 (every tail branch of the size rule) x three "
+        "value domains (0: |x| < 2^60, both families must agree; 1: full i64 range with i64::MIN/MAX planted in every other "
+        "limb, wrapping at 64 bits on the FFT64 family and exact on NTT120; 2: big words over the full i128 range with the "
+        "i128 extremes and +-2^63 planted, NTT120 only), backends alternating inside each family (all four per tuple in "
+        "thorough), N in {1,2,4,8}; random part = N in 1..16 plus vector lengths that are not a power of two (SIMD body + tail) "
+        "for the element-wise opcodes, 1..3 columns with independent target/source columns, capacity above the active size, "
+        "odd Galois exponents in [-4N,4N] and random odd i64; whole destination buffer compared word for word with the model "
+        "(w = 64: Ring.v; w = 128: the ntt120 limb loops as they are); oracle = word-by-word linear spec "
+        "wrap_w(ca*x + cb*y) with the size rule / sigma_p, plus the frame (every word outside the selected column unchanged)")
 ASSUMPTIONS = ["release-mode (wrapping) integer semantics"]
 def classify(record):
     return None
